@@ -49,8 +49,8 @@ def keyword_package(kws: list[str]) -> dict:
     for n in ("val", "fun", "attr", "sub", "out", "this", "val_"):       # module / package path segments
         f[f"{n}.py"] = "def inmod() -> int:\n    ...\n"
     # classes of other libraries whose top-level module / package is called like a keyword: one-segment paths in imports and placeholder stubs
-    f["kforeign.py"] = ("import enum\nfrom schema import Table\nfrom pipeline.val import Step\n\n\n"
-                        "def uses_foreign(m: enum.Enum, t: Table, s: Step) -> enum.IntEnum:\n    ...\n")
+    f["kforeign.py"] = ("import enum\nfrom schema import Table\nfrom pipeline.val import Step\nfrom pipeline._1st_mod import DigitCls\n\n\n"
+                        "def uses_foreign(m: enum.Enum, t: Table, s: Step, d: DigitCls) -> enum.IntEnum:\n    ...\n")
     for n in ("internal", "segment_", "literal"):
         f[f"{n}/__init__.py"] = ""
         f[f"{n}/leaf.py"] = "def inpkg() -> int:\n    ...\n"
@@ -110,7 +110,7 @@ def main(v: Verdict) -> None:
     kws = keywords_from_spec()
     jobs, meta = [], []
     kp = write_pkg(keyword_package(kws), "kwpk", siblings={"schema": {"__init__.py": "class Table:\n    pass\n"},
-                                                          "pipeline": {"__init__.py": "", "val.py": "class Step:\n    pass\n"}})
+                                                          "pipeline": {"__init__.py": "", "val.py": "class Step:\n    pass\n", "_1st_mod.py": "class DigitCls:\n    pass\n"}})
     for nc in (False, True):
         jobs.append({"src": kp, "opts": Opts(docstyle="NUMPYDOC", nc=nc), "timeout": 600})
         meta.append(f"keywords-{'nc' if nc else 'py'}")
